@@ -12,6 +12,8 @@ namespace Nstd.Sync.Scen
 inductive SOp
   | lock | try_ (skip : Nat) | unlock | signal | wait | twait (ms : Nat) | trywait | set | reset
   | start (j : Nat) | join (j : Nat)
+  /-- delete the primitive (only generated where no correct implementation touches it afterwards) -/
+  | destroy
 deriving DecidableEq, Repr
 
 inductive Kind | normal | spur | eintr | timeout | tick
@@ -68,6 +70,7 @@ def primCall (p : PrimSt) (t : Tid) (op : SOp) : Option PrimSt :=
 def opValid (prim : String) (op : SOp) : Bool :=
   match op with
   | .start _ | .join _ => true
+  | .destroy => prim == "sig"
   | .lock | .try_ _ | .unlock => prim == "mtx" || prim == "mon"
   | .signal | .trywait => prim == "sem"
   | .wait | .twait _ => prim == "sem" || prim == "sig" || prim == "mon"
@@ -171,6 +174,8 @@ def advance (fuel : Nat) (w : World) (t : Tid) (evs : List String) : Option (Wor
             advance fuel { w with thr := th, pos := w.pos.set! t (k + 1) } t
               (evs ++ [s!"{k}={valStr ((th.ret t).getD .unit)}"])
           else some ({ w with thr := th }, evs)
+      | some .destroy =>   -- no POSIX scheduling point; object lifetime is not part of the model
+        advance fuel { w with pos := w.pos.set! t (k + 1) } t (evs ++ [s!"{k}=v"])
       | some op => (primCall w.prim t op).map fun p => ({ w with prim := p }, evs)
 
 /-- the pending call of thread t has returned `v` -/
